@@ -30,7 +30,10 @@ def gen_case(rng):
     junk = []
     for _ in range(rng.randint(0, 6)):
         kind = rng.choice(['blank', 'tab', 'ctrl', 'ctrl', 'ctrl', 'nel', 'ls', 'ps', 'badbytes', 'badhex', 'hexctrl'])
-        junk.append([rng.randrange(len(items) + 1), kind, rng.choice(JUNK_CTRL), rng.choice(['ab%scd', '%stail', 'head%s', 'a%sb%sc'])])
+        ctrl = rng.choice(JUNK_CTRL)
+        if kind == 'hexctrl' and rng.random() < 0.4:
+            ctrl = rng.choice('\n\r')          # only a $HEX[] line can carry a line feed / carriage return inside (or at the end of) a password
+        junk.append([rnd_pos(rng, len(items)), kind, ctrl, rng.choice(['ab%scd', '%stail', 'head%s', 'a%sb%sc', 'head%s', '%s'])])
     case = {'items': [[p, k] for p, k in items], 'junk': junk, 'encoding': enc, 'eol': rng.choice(['\n', '\n', '\r\n']),
             'coverage': rng.choice([0.6, 1.0, 0.3]), 'ngram': rng.choice([2, 3, 4]), 'alphabet': 100, 'max_len': 21, 'hseed': rng.getrandbits(32)}
     # --multiword: a plain pre-training word list, the same file for every rendering; the list holds a few alpha runs that are split only because of it
@@ -44,6 +47,9 @@ def gen_case(rng):
     return case
 
 MW_WORDS = ['horse', 'battery', 'staple', 'correct', 'river', 'stone', 'wall', 'king', 'blue', 'fish', 'tank', 'monkey', 'dragon', 'love', 'star']
+
+def rnd_pos(rng, n):
+    return rng.randrange(n + 1)
 
 def junk_bytes(j, enc):
     pos, kind, ctrl, pat = j
@@ -64,7 +70,7 @@ def junk_bytes(j, enc):
     if kind == 'badhex':
         return b'$HEX[4g]'
     if kind == 'hexctrl':
-        return b'$HEX[' + ('ab' + ctrl + 'cd').encode(enc).hex().encode() + b']'
+        return b'$HEX[' + pat.replace('%s', ctrl).encode(enc).hex().encode() + b']'
     raise ValueError(kind)
 
 def must_hex(pw):
